@@ -48,11 +48,14 @@ COMMENT_BODIES = [
     " multi\nline\ncomment ",
     "\n",
     " * / * ",
+    " { ",
+    " the ancilla is q<2> ",
+    " } > | < ",
     "*",
     " loop 3 { X } ",
     " ; | < > { } ",
 ]
-LINE_COMMENTS = ["// c", "//", "// /* not open", "// let x 1 ; g", "//* x */ g"]
+LINE_COMMENTS = ["// c", "//", "// /* not open", "// let x 1 ; g", "//* x */ g", "// q<2> {", "// }"]
 
 
 def _layout_case(ch):
@@ -179,6 +182,13 @@ def positive(case):
         raise Violation(kind, f"got      {got}\nexpected {expected}\n--- text:\n{text}")
     nt = (stats["block"] >= 2 or stats["gapc"] >= 1) and stats["semi"] >= 1 and stats["nl"] >= 1
     classes = ["block-comments:%s" % min(stats["block"], 3), "line-comments:%s" % min(stats["line"], 2)]
+    # header-only parsing of the same text (comments and all): exactly the header statements
+    st_, goth = guard(parse_to_sexpression, text, header_only=True, what="parse_to_sexpression(header_only)")
+    if st_ == "err":
+        raise Violation("rejected-legal-text", f"header_only: {goth}\n--- text:\n{text}", where="header-only")
+    wanth = [x for x in expected if x == "circuit" or (isinstance(x, list) and x and x[0] in _HEADER_HEADS)]
+    if repr(plain(goth)) != repr(wanth):
+        raise Violation("tree-differs", f"header_only got {plain(goth)}\nexpected {wanth}\n--- text:\n{text}", where="header-only")
     # the full entry point: a program that is also VALID (references, nesting) must be accepted
     # by parse_jaqal_string under the same layout, and mean what the reference says
     if not any(s[0] == "branch" for s in prog["body"]):
@@ -199,6 +209,14 @@ def positive(case):
             if not same_meaning(want, gotm):
                 raise Violation("circuit-meaning", f"reference {show(want)}\ncircuit {show(gotm)}\n--- text:\n{text}")
             classes.append("valid-program-built")
+            # ... and the header entry point declares what the full parse declares
+            from jaqalpaq.parser.parser import parse_jaqal_string_header
+
+            st_, hc = guard(parse_jaqal_string_header, text, what="parse_jaqal_string_header")
+            if st_ == "err":
+                raise Violation("rejected-valid-program", f"parse_jaqal_string_header: {hc}\n--- text:\n{text}", where="header-entry")
+            if not (hc.constants == c.constants) or not (hc.registers == c.registers) or [str(u.module) for u in hc.usepulses] != [str(u.module) for u in c.usepulses]:
+                raise Violation("tree-differs", f"parse_jaqal_string_header declares constants {list(hc.constants)} registers {list(hc.registers)} imports {[str(u.module) for u in hc.usepulses]}; the full parse: {list(c.constants)} {list(c.registers)} {[str(u.module) for u in c.usepulses]}\n--- text:\n{text}", where="header-entry")
     if any(s[0] == "branch" for s in prog["body"]):
         classes.append("branch")
     if stats["bar"]:
